@@ -4,776 +4,11 @@
 //! Case line: `<seed> <script as S-expression>` (grammar in lean/YashModel/Exec/Sexp.lean). The seed
 //! drives only the surface rendering (newline vs `;`, blanks, comments, line continuations).
 //! Observation: `trace=<marker:$?,…> status=<exit status>` where the trace comes from the `probe`
-//! built-in (prints `$?`, preserves it).
+//! built-in (prints `$?`, preserves it). Program generation and running: `yverif::prog`.
 
-use std::fmt::Write as _;
-use yash_env::builtin::{Builtin, Type};
-use yash_env::semantics::{ExitStatus, Field};
-use yash_env::variable::Scope;
-use yverif::proto::{Opts, dec_str, emit, guarded, quiet_panics};
+use yverif::prog::{Gen, parse_case, render, run_case, sx_script};
+use yverif::proto::{Opts, emit, quiet_panics};
 use yverif::rng::Rng;
-use yverif::shell::{BuiltinFuture, Config, VEnv, run_with};
-
-// ---------------------------------------------------------------------------------------------
-// AST mirror of YashModel.Exec.Cmd
-
-#[derive(Clone, Debug)]
-enum Cmd {
-    Probe(u32),
-    St(u32),
-    Brk(u32),
-    Cont(u32),
-    Ret(Option<u32>),
-    Exit(Option<u32>),
-    SetE(bool),
-    Call(&'static str),
-    Unknown,
-    Tick(u32, u32),
-    Group(List),
-    Subshell(List),
-    If(List, List, Vec<(List, List)>, Option<List>),
-    While(bool, List, List),
-    For(u32, List),
-    Case(Vec<(bool, char, List)>),
-    Def(&'static str, Box<Cmd>),
-}
-#[derive(Clone, Debug)]
-struct Pipeline(bool, Vec<Cmd>);
-#[derive(Clone, Debug)]
-struct Item(Pipeline, Vec<(bool, Pipeline)>);
-type List = Vec<Item>;
-
-fn sx_list(l: &List) -> String {
-    let v: Vec<String> = l.iter().map(sx_item).collect();
-    format!("({})", v.join(" "))
-}
-fn sx_pipe(p: &Pipeline) -> String {
-    if !p.0 && p.1.len() == 1 {
-        return sx_cmd(&p.1[0]);
-    }
-    let v: Vec<String> = p.1.iter().map(sx_cmd).collect();
-    format!("(pl {} {})", p.0 as u8, v.join(" "))
-}
-fn sx_item(i: &Item) -> String {
-    if i.1.is_empty() {
-        return sx_pipe(&i.0);
-    }
-    let mut s = format!("(ao {}", sx_pipe(&i.0));
-    for (and, p) in &i.1 {
-        write!(s, " ({} {})", if *and { "and" } else { "or" }, sx_pipe(p)).unwrap();
-    }
-    s.push(')');
-    s
-}
-fn sx_name(n: &str) -> &str {
-    if n == ":" { "colon" } else { n }
-}
-fn sx_cmd(c: &Cmd) -> String {
-    match c {
-        Cmd::Probe(m) => format!("(probe {m})"),
-        Cmd::St(n) => format!("(st {n})"),
-        Cmd::Brk(n) => format!("(brk {n})"),
-        Cmd::Cont(n) => format!("(cont {n})"),
-        Cmd::Ret(None) => "(ret)".into(),
-        Cmd::Ret(Some(n)) => format!("(ret {n})"),
-        Cmd::Exit(None) => "(exit)".into(),
-        Cmd::Exit(Some(n)) => format!("(exit {n})"),
-        Cmd::SetE(b) => format!("(sete {})", *b as u8),
-        Cmd::Call(n) => format!("(call {})", sx_name(n)),
-        Cmd::Unknown => "(unk)".into(),
-        Cmd::Tick(c, k) => format!("(tick {c} {k})"),
-        Cmd::Group(l) => format!("(grp {})", sx_list(l)),
-        Cmd::Subshell(l) => format!("(sub {})", sx_list(l)),
-        Cmd::If(c, b, elifs, e) => {
-            let mut s = format!("(if {} {} (", sx_list(c), sx_list(b));
-            let v: Vec<String> = elifs
-                .iter()
-                .map(|(c, b)| format!("{} {}", sx_list(c), sx_list(b)))
-                .collect();
-            s.push_str(&v.join(" "));
-            s.push(')');
-            if let Some(e) = e {
-                write!(s, " {}", sx_list(e)).unwrap();
-            }
-            s.push(')');
-            s
-        }
-        Cmd::While(until, c, b) => format!(
-            "({} {} {})",
-            if *until { "until" } else { "while" },
-            sx_list(c),
-            sx_list(b)
-        ),
-        Cmd::For(n, b) => format!("(for {n} {})", sx_list(b)),
-        Cmd::Case(items) => {
-            let v: Vec<String> = items
-                .iter()
-                .map(|(m, k, b)| format!("({} {k} {})", *m as u8, sx_list(b)))
-                .collect();
-            format!("(case {})", v.join(" "))
-        }
-        Cmd::Def(n, c) => format!("(def {} {})", sx_name(n), sx_cmd(c)),
-    }
-}
-
-// ---------------------------------------------------------------------------------------------
-// S-expression reader (for replay / corpus cases)
-
-#[derive(Debug)]
-enum Sx {
-    Atom(String),
-    List(Vec<Sx>),
-}
-fn parse_sx(toks: &[String], pos: &mut usize) -> Option<Sx> {
-    let t = toks.get(*pos)?;
-    *pos += 1;
-    if t == "(" {
-        let mut v = vec![];
-        while toks.get(*pos)? != ")" {
-            v.push(parse_sx(toks, pos)?);
-        }
-        *pos += 1;
-        Some(Sx::List(v))
-    } else if t == ")" {
-        None
-    } else {
-        Some(Sx::Atom(t.clone()))
-    }
-}
-fn tokenize(s: &str) -> Vec<String> {
-    let mut v = vec![];
-    let mut cur = String::new();
-    for c in s.chars() {
-        if c == '(' || c == ')' || c == ' ' {
-            if !cur.is_empty() {
-                v.push(std::mem::take(&mut cur));
-            }
-            if c != ' ' {
-                v.push(c.to_string());
-            }
-        } else {
-            cur.push(c);
-        }
-    }
-    if !cur.is_empty() {
-        v.push(cur);
-    }
-    v
-}
-fn atom(x: &Sx) -> Option<&str> {
-    match x {
-        Sx::Atom(a) => Some(a),
-        _ => None,
-    }
-}
-fn num(x: &Sx) -> Option<u32> {
-    atom(x)?.parse().ok()
-}
-fn name(x: &Sx) -> Option<&'static str> {
-    Some(match atom(x)? {
-        "f0" => "f0",
-        "f1" => "f1",
-        "f2" => "f2",
-        "ok" => "ok",
-        "colon" => ":",
-        _ => return None,
-    })
-}
-fn to_list(x: &Sx) -> Option<List> {
-    match x {
-        Sx::List(v) => v.iter().map(to_item).collect(),
-        _ => None,
-    }
-}
-fn to_item(x: &Sx) -> Option<Item> {
-    if let Sx::List(v) = x {
-        if v.first().and_then(atom) == Some("ao") {
-            let first = to_pipe(v.get(1)?)?;
-            let mut rest = vec![];
-            for r in &v[2..] {
-                if let Sx::List(r) = r {
-                    let and = match atom(r.first()?)? {
-                        "and" => true,
-                        "or" => false,
-                        _ => return None,
-                    };
-                    rest.push((and, to_pipe(r.get(1)?)?));
-                } else {
-                    return None;
-                }
-            }
-            return Some(Item(first, rest));
-        }
-    }
-    Some(Item(to_pipe(x)?, vec![]))
-}
-fn to_pipe(x: &Sx) -> Option<Pipeline> {
-    if let Sx::List(v) = x {
-        if v.first().and_then(atom) == Some("pl") {
-            let neg = num(v.get(1)?)? != 0;
-            let cmds: Option<Vec<Cmd>> = v[2..].iter().map(to_cmd).collect();
-            return Some(Pipeline(neg, cmds?));
-        }
-    }
-    Some(Pipeline(false, vec![to_cmd(x)?]))
-}
-fn to_cmd(x: &Sx) -> Option<Cmd> {
-    let Sx::List(v) = x else { return None };
-    let head = atom(v.first()?)?;
-    Some(match (head, v.len()) {
-        ("probe", 2) => Cmd::Probe(num(&v[1])?),
-        ("st", 2) => Cmd::St(num(&v[1])?),
-        ("brk", 2) => Cmd::Brk(num(&v[1])?),
-        ("cont", 2) => Cmd::Cont(num(&v[1])?),
-        ("ret", 1) => Cmd::Ret(None),
-        ("ret", 2) => Cmd::Ret(Some(num(&v[1])?)),
-        ("exit", 1) => Cmd::Exit(None),
-        ("exit", 2) => Cmd::Exit(Some(num(&v[1])?)),
-        ("sete", 2) => Cmd::SetE(num(&v[1])? != 0),
-        ("call", 2) => Cmd::Call(name(&v[1])?),
-        ("unk", 1) => Cmd::Unknown,
-        ("tick", 3) => Cmd::Tick(num(&v[1])?, num(&v[2])?),
-        ("grp", 2) => Cmd::Group(to_list(&v[1])?),
-        ("sub", 2) => Cmd::Subshell(to_list(&v[1])?),
-        ("if", 4) | ("if", 5) => {
-            let Sx::List(e) = &v[3] else { return None };
-            let mut elifs = vec![];
-            for pair in e.chunks(2) {
-                elifs.push((to_list(&pair[0])?, to_list(pair.get(1)?)?));
-            }
-            let els = if v.len() == 5 { Some(to_list(&v[4])?) } else { None };
-            Cmd::If(to_list(&v[1])?, to_list(&v[2])?, elifs, els)
-        }
-        ("while", 3) => Cmd::While(false, to_list(&v[1])?, to_list(&v[2])?),
-        ("until", 3) => Cmd::While(true, to_list(&v[1])?, to_list(&v[2])?),
-        ("for", 3) => Cmd::For(num(&v[1])?, to_list(&v[2])?),
-        ("case", _) => {
-            let mut items = vec![];
-            for it in &v[1..] {
-                let Sx::List(it) = it else { return None };
-                items.push((
-                    num(it.first()?)? != 0,
-                    atom(it.get(1)?)?.chars().next()?,
-                    to_list(it.get(2)?)?,
-                ));
-            }
-            Cmd::Case(items)
-        }
-        ("def", 3) => Cmd::Def(name(&v[1])?, Box::new(to_cmd(&v[2])?)),
-        _ => return None,
-    })
-}
-fn parse_case(case: &str) -> Option<(u64, Vec<List>)> {
-    let (seed, rest) = case.split_once(' ')?;
-    let toks = tokenize(rest);
-    let mut pos = 0;
-    let sx = parse_sx(&toks, &mut pos)?;
-    if pos != toks.len() {
-        return None;
-    }
-    let Sx::List(lines) = sx else { return None };
-    let lines: Option<Vec<List>> = lines.iter().map(to_list).collect();
-    Some((seed.parse().ok()?, lines?))
-}
-
-// ---------------------------------------------------------------------------------------------
-// rendering to shell source with surface variation
-
-struct Render {
-    rng: Rng,
-    out: String,
-}
-impl Render {
-    /// separator between commands of a list: newline, `;`, with optional blanks/comments
-    fn sep(&mut self) {
-        match self.rng.below(6) {
-            0 => self.out.push_str("; "),
-            1 => self.out.push(';'),
-            2 => self.out.push_str(" ;\t"),
-            3 => self.out.push_str(" # c;omment\n"),
-            4 => self.out.push_str("\n\n  "),
-            _ => self.out.push('\n'),
-        }
-    }
-    fn sp(&mut self) {
-        match self.rng.below(5) {
-            0 => self.out.push_str("  "),
-            1 => self.out.push('\t'),
-            2 => self.out.push_str(" \\\n"),
-            _ => self.out.push(' '),
-        }
-    }
-    fn opt_nl(&mut self) {
-        if self.rng.chance(1, 3) {
-            self.out.push('\n');
-        } else {
-            self.out.push(' ');
-        }
-    }
-    fn word(&mut self, w: &str) {
-        // occasionally quote part of a non-reserved word
-        self.out.push_str(w);
-    }
-    fn list(&mut self, l: &List) {
-        for (i, it) in l.iter().enumerate() {
-            if i > 0 {
-                self.sep();
-            }
-            self.item(it);
-        }
-    }
-    /// list followed by a terminator suitable before a closing keyword
-    fn list_term(&mut self, l: &List) {
-        self.list(l);
-        match self.rng.below(3) {
-            0 => self.out.push_str("; "),
-            1 => self.out.push_str("\n"),
-            _ => self.out.push_str(" ;\n "),
-        }
-    }
-    fn item(&mut self, it: &Item) {
-        self.pipe(&it.0);
-        for (and, p) in &it.1 {
-            self.sp();
-            self.out.push_str(if *and { "&&" } else { "||" });
-            self.opt_nl();
-            self.pipe(p);
-        }
-    }
-    fn pipe(&mut self, p: &Pipeline) {
-        if p.0 {
-            self.out.push('!');
-            self.sp();
-        }
-        for (i, c) in p.1.iter().enumerate() {
-            if i > 0 {
-                self.sp();
-                self.out.push('|');
-                self.opt_nl();
-            }
-            self.cmd(c);
-        }
-    }
-    fn simple(&mut self, words: &[String]) {
-        for (i, w) in words.iter().enumerate() {
-            if i > 0 {
-                self.sp();
-            }
-            self.word(w);
-        }
-    }
-    fn cmd(&mut self, c: &Cmd) {
-        match c {
-            Cmd::Probe(m) => self.simple(&["probe".into(), m.to_string()]),
-            Cmd::St(n) => self.simple(&["st".into(), n.to_string()]),
-            Cmd::Brk(n) => {
-                if *n == 1 && self.rng.chance(1, 2) {
-                    self.simple(&["break".into()])
-                } else {
-                    self.simple(&["break".into(), n.to_string()])
-                }
-            }
-            Cmd::Cont(n) => {
-                if *n == 1 && self.rng.chance(1, 2) {
-                    self.simple(&["continue".into()])
-                } else {
-                    self.simple(&["continue".into(), n.to_string()])
-                }
-            }
-            Cmd::Ret(None) => self.simple(&["return".into()]),
-            Cmd::Ret(Some(n)) => self.simple(&["return".into(), n.to_string()]),
-            Cmd::Exit(None) => self.simple(&["exit".into()]),
-            Cmd::Exit(Some(n)) => self.simple(&["exit".into(), n.to_string()]),
-            Cmd::SetE(true) => self.simple(&["set".into(), "-e".into()]),
-            Cmd::SetE(false) => self.simple(&["set".into(), "+e".into()]),
-            Cmd::Call(n) => self.simple(&[n.to_string()]),
-            Cmd::Unknown => self.simple(&["no_such_command_xyz".into()]),
-            Cmd::Tick(c, k) => self.simple(&["tick".into(), c.to_string(), k.to_string()]),
-            Cmd::Group(l) => {
-                self.out.push('{');
-                self.opt_nl();
-                self.list_term(l);
-                self.out.push('}');
-            }
-            Cmd::Subshell(l) => {
-                self.out.push('(');
-                if self.rng.chance(1, 2) {
-                    self.out.push(' ');
-                }
-                self.list(l);
-                if self.rng.chance(1, 3) {
-                    self.out.push('\n');
-                }
-                self.out.push(')');
-            }
-            Cmd::If(c, b, elifs, e) => {
-                self.out.push_str("if");
-                self.opt_nl();
-                self.list_term(c);
-                self.out.push_str("then");
-                self.opt_nl();
-                self.list_term(b);
-                for (c, b) in elifs {
-                    self.out.push_str("elif");
-                    self.opt_nl();
-                    self.list_term(c);
-                    self.out.push_str("then");
-                    self.opt_nl();
-                    self.list_term(b);
-                }
-                if let Some(e) = e {
-                    self.out.push_str("else");
-                    self.opt_nl();
-                    self.list_term(e);
-                }
-                self.out.push_str("fi");
-            }
-            Cmd::While(until, c, b) => {
-                self.out.push_str(if *until { "until" } else { "while" });
-                self.opt_nl();
-                self.list_term(c);
-                self.out.push_str("do");
-                self.opt_nl();
-                self.list_term(b);
-                self.out.push_str("done");
-            }
-            Cmd::For(n, b) => {
-                self.out.push_str("for v in");
-                for i in 0..*n {
-                    write!(self.out, " w{i}").unwrap();
-                }
-                if self.rng.chance(1, 2) {
-                    self.out.push_str("; ");
-                } else {
-                    self.out.push('\n');
-                }
-                self.out.push_str("do");
-                self.opt_nl();
-                self.list_term(b);
-                self.out.push_str("done");
-            }
-            Cmd::Case(items) => {
-                self.out.push_str("case x in");
-                self.opt_nl();
-                for (m, k, b) in items {
-                    if self.rng.chance(1, 2) {
-                        self.out.push('(');
-                    }
-                    self.out.push_str(if *m {
-                        *self.rng.pick(&["x", "y|x", "?", "[x]"])
-                    } else {
-                        *self.rng.pick(&["y", "xx", "y|z"])
-                    });
-                    self.out.push(')');
-                    self.opt_nl();
-                    self.list(b);
-                    self.out.push(' ');
-                    self.out.push_str(match k {
-                        'b' => ";;",
-                        'f' => ";&",
-                        _ => ";;&",
-                    });
-                    self.opt_nl();
-                }
-                self.out.push_str("esac");
-            }
-            Cmd::Def(n, c) => {
-                self.out.push_str(n);
-                if self.rng.chance(1, 2) {
-                    self.out.push(' ');
-                }
-                self.out.push_str("()");
-                self.opt_nl();
-                self.cmd(c);
-            }
-        }
-    }
-}
-
-fn render(seed: u64, lines: &[List]) -> String {
-    let mut r = Render { rng: Rng::new(seed ^ 0x5EED), out: String::new() };
-    for l in lines {
-        r.list(l);
-        r.out.push('\n');
-    }
-    r.out
-}
-
-// ---------------------------------------------------------------------------------------------
-// generator
-
-struct Gen {
-    /// only functions of rank below this may be called here (keeps the call graph acyclic even
-    /// under redefinition: the body of a function of rank r only calls ranks < r)
-    call_limit: usize,
-    /// how many loops enclose the command being generated
-    loop_depth: u32,
-    rng: Rng,
-    marker: u32,
-    counter: u32,
-    budget: i32,
-    max_depth: u32,
-}
-impl Gen {
-    fn probe(&mut self) -> Cmd {
-        self.marker += 1;
-        Cmd::Probe(self.marker)
-    }
-    fn simple(&mut self, in_pipe: bool) -> Cmd {
-        self.budget -= 1;
-        let r = self.rng.below(100);
-        if in_pipe {
-            // members of a multi-command pipeline run concurrently: no probes there
-            return match r % 6 {
-                0 => Cmd::St(0),
-                1 => Cmd::St(1 + (r as u32 % 3)),
-                2 => Cmd::Exit(Some(r as u32 % 4)),
-                3 => Cmd::Unknown,
-                4 => Cmd::Call(":"),
-                _ => Cmd::St(2),
-            };
-        }
-        match r {
-            0..=29 => self.probe(),
-            30..=41 => Cmd::St(0),
-            42..=53 => Cmd::St(1 + (r as u32 % 4)),
-            54..=60 => Cmd::Brk(1 + (r as u32 % 3)),
-            61..=66 => Cmd::Cont(1 + (r as u32 % 3)),
-            67..=71 => Cmd::Ret(if r % 2 == 0 { None } else { Some(r as u32 % 7) }),
-            72..=74 => Cmd::Exit(if r % 2 == 0 { None } else { Some(r as u32 % 5) }),
-            75..=84 => {
-                let names = ["f0", "f1", "f2", "ok"];
-                if self.call_limit == 0 || self.rng.chance(1, 6) {
-                    Cmd::Call(":")
-                } else {
-                    Cmd::Call(names[self.rng.below(self.call_limit.min(4))])
-                }
-            }
-            85..=87 => Cmd::Unknown,
-            88..=90 => Cmd::SetE(self.rng.chance(1, 2)),
-            _ => {
-                // a command whose status changes from one execution to the next
-                self.counter += 1;
-                Cmd::Tick(self.counter, self.rng.below(3) as u32)
-            }
-        }
-    }
-    fn list(&mut self, depth: u32, max_len: usize) -> List {
-        let n = 1 + self.rng.below(max_len);
-        let mut l = vec![];
-        for _ in 0..n {
-            if self.loop_depth > 0 && self.rng.chance(1, 4) {
-                // leave or restart the loop on a later iteration only: `tick c k || break n`
-                self.counter += 1;
-                let t = Cmd::Tick(self.counter, self.rng.below(3) as u32);
-                let lvl = 1 + self.rng.below(self.loop_depth as usize + 1) as u32;
-                let act = if self.rng.chance(2, 3) { Cmd::Brk(lvl) } else { Cmd::Cont(lvl) };
-                let and = self.rng.chance(1, 3);
-                l.push(Item(Pipeline(false, vec![t]), vec![(and, Pipeline(false, vec![act]))]));
-            }
-            l.push(self.item(depth));
-            if self.rng.chance(1, 2) {
-                l.push(Item(Pipeline(false, vec![self.probe()]), vec![]));
-            }
-        }
-        l
-    }
-    fn item(&mut self, depth: u32) -> Item {
-        let first = self.pipe(depth);
-        let mut rest = vec![];
-        if self.rng.chance(1, 4) {
-            for _ in 0..1 + self.rng.below(3) {
-                rest.push((self.rng.chance(1, 2), self.pipe(depth)));
-            }
-        }
-        Item(first, rest)
-    }
-    fn pipe(&mut self, depth: u32) -> Pipeline {
-        let neg = self.rng.chance(1, 8);
-        if self.rng.chance(1, 12) {
-            let n = 2 + self.rng.below(2);
-            let mut v = vec![];
-            for _ in 0..n {
-                v.push(self.simple(true));
-            }
-            return Pipeline(neg, v);
-        }
-        Pipeline(neg, vec![self.cmd(depth)])
-    }
-    fn cond(&mut self, depth: u32) -> List {
-        // conditions are mostly simple so that loops terminate; sometimes a full list
-        if self.rng.chance(1, 5) && depth < self.max_depth {
-            self.list(depth + 1, 2)
-        } else {
-            let c = match self.rng.below(6) {
-                0 => Cmd::St(0),
-                1 => Cmd::St(1),
-                2 => self.probe(),
-                3 | 4 => {
-                    self.counter += 1;
-                    Cmd::Tick(self.counter, self.rng.below(3) as u32)
-                }
-                _ => Cmd::Call(":"),
-            };
-            vec![Item(Pipeline(self.rng.chance(1, 6), vec![c]), vec![])]
-        }
-    }
-    fn loop_cond(&mut self, until: bool) -> List {
-        // a loop condition must eventually flip: `tick c k` succeeds k times
-        self.counter += 1;
-        let k = self.rng.below(4) as u32;
-        let tick = Cmd::Tick(self.counter, k);
-        let mut l = vec![];
-        if self.rng.chance(1, 3) {
-            l.push(Item(Pipeline(false, vec![self.probe()]), vec![]));
-        }
-        // `until` needs a condition that fails k times then succeeds: negate
-        l.push(Item(Pipeline(until, vec![tick]), vec![]));
-        if self.rng.chance(1, 6) {
-            // a break/continue inside the condition list, guarded so that the loop still ends
-            self.counter += 1;
-            let g = Cmd::Tick(self.counter, 1);
-            let act = if self.rng.chance(1, 2) { Cmd::Brk(1) } else { Cmd::Cont(1) };
-            l.insert(
-                0,
-                Item(Pipeline(false, vec![g]), vec![(true, Pipeline(false, vec![act]))]),
-            );
-        }
-        l
-    }
-    fn cmd(&mut self, depth: u32) -> Cmd {
-        if depth >= self.max_depth || self.budget <= 0 || self.rng.chance(11, 20) {
-            return self.simple(false);
-        }
-        self.budget -= 2;
-        let d = depth + 1;
-        match self.rng.below(12) {
-            0 => Cmd::Group(self.list(d, 3)),
-            1 => Cmd::Subshell(self.list(d, 3)),
-            2 | 3 => {
-                let c = self.cond(d);
-                let b = self.list(d, 2);
-                let mut elifs = vec![];
-                for _ in 0..self.rng.below(3).saturating_sub(1) {
-                    elifs.push((self.cond(d), self.list(d, 2)));
-                }
-                let e = if self.rng.chance(1, 2) { Some(self.list(d, 2)) } else { None };
-                Cmd::If(c, b, elifs, e)
-            }
-            4 | 5 => {
-                let until = self.rng.chance(1, 3);
-                let c = self.loop_cond(until);
-                self.loop_depth += 1;
-                let b = self.list(d, 3);
-                self.loop_depth -= 1;
-                Cmd::While(until, c, b)
-            }
-            6 | 7 => {
-                self.loop_depth += 1;
-                let b = self.list(d, 3);
-                self.loop_depth -= 1;
-                Cmd::For(self.rng.below(4) as u32, b)
-            }
-            8 | 9 => {
-                let mut items = vec![];
-                for _ in 0..self.rng.below(4) {
-                    let body = if self.rng.chance(1, 5) { vec![] } else { self.list(d, 2) };
-                    items.push((self.rng.chance(1, 2), *self.rng.pick(&['b', 'b', 'f', 'c']), body));
-                }
-                Cmd::Case(items)
-            }
-            _ => {
-                let names = ["f0", "f1", "f2", "ok", ":"];
-                let rank = self.rng.below(5);
-                let saved = self.call_limit;
-                self.call_limit = saved.min(rank);
-                let body = match self.rng.below(3) {
-                    0 => Cmd::Subshell(self.list(d, 3)),
-                    _ => Cmd::Group(self.list(d, 3)),
-                };
-                self.call_limit = saved;
-                Cmd::Def(names[rank], Box::new(body))
-            }
-        }
-    }
-    fn script(&mut self) -> Vec<List> {
-        let nlines = 1 + self.rng.below(4);
-        let mut lines = vec![];
-        for _ in 0..nlines {
-            lines.push(self.list(0, 3));
-        }
-        // final probe so that `$?` at the end is observed when the script gets there
-        let p = self.probe();
-        lines.push(vec![Item(Pipeline(false, vec![p]), vec![])]);
-        lines
-    }
-}
-
-// ---------------------------------------------------------------------------------------------
-// running
-
-/// `tick c k`: succeeds while the shell variable `_t<c>` is below k (and increments it).
-fn tick_main(env: &mut VEnv, args: Vec<Field>) -> BuiltinFuture<'_> {
-    let c = args.first().map(|f| f.value.clone()).unwrap_or_default();
-    let k: u32 = args.get(1).and_then(|f| f.value.parse().ok()).unwrap_or(0);
-    let name = format!("_t{c}");
-    let v: u32 = env
-        .variables
-        .get(&name)
-        .and_then(|v| match &v.value {
-            Some(yash_env::variable::Value::Scalar(s)) => Some(s.clone()),
-            _ => None,
-        })
-        .and_then(|s| s.parse().ok())
-        .unwrap_or(0);
-    let st = if v < k {
-        let mut var = env.variables.get_or_new(&name, Scope::Global);
-        let _ = var.assign((v + 1).to_string(), None);
-        0
-    } else {
-        1
-    };
-    Box::pin(async move { ExitStatus(st).into() })
-}
-
-fn ok_main(_env: &mut VEnv, _args: Vec<Field>) -> BuiltinFuture<'_> {
-    Box::pin(async move { ExitStatus(0).into() })
-}
-
-fn observe(seed: u64, lines: &[List]) -> String {
-    let src = render(seed, lines);
-    let mut cfg = Config::new(&src);
-    cfg.max_rounds = 50_000;
-    let (o, _) = run_with(
-        cfg,
-        |env, _| {
-            env.builtins.insert("tick", Builtin::new(Type::Mandatory, tick_main));
-            // `ok`: a regular built-in returning 0 (a function of that name must win over it)
-            env.builtins.insert("ok", Builtin::new(Type::Mandatory, ok_main));
-        },
-        |_, _| (),
-    );
-    if o.stuck {
-        return "TIMEOUT".into();
-    }
-    let mut trace = vec![];
-    for line in o.stdout_str().lines() {
-        // probe line: `<$?>:<hex marker>`
-        let Some((st, hex)) = line.split_once(':') else {
-            return format!("GARBLED({line})");
-        };
-        let m = dec_str(hex).unwrap_or_default();
-        trace.push(format!("{m}:{st}"));
-    }
-    format!("trace={} status={}", trace.join(","), o.exit_status)
-}
-
-fn run_case(case: &str) -> String {
-    match parse_case(case) {
-        Some((seed, lines)) => guarded(|| observe(seed, &lines)),
-        None => "bad-case".into(),
-    }
-}
 
 fn main() {
     quiet_panics();
@@ -810,11 +45,11 @@ fn main() {
             counter: 0,
             budget: if o.thorough() { 30 } else { 22 },
             max_depth: if o.thorough() { 3 + (k % 4) as u32 } else { 2 + (k % 3) as u32 },
+            errors: false,
         };
         let lines = g.script();
         let surface = g.rng.next() % 1000;
-        let v: Vec<String> = lines.iter().map(sx_list).collect();
-        let case = format!("{} ({})", surface, v.join(" "));
+        let case = format!("{} {}", surface, sx_script(&lines));
         emit(&case, &run_case(&case), "-");
     }
 }
